@@ -3,6 +3,7 @@ package limiter
 import (
 	"context"
 	"fmt"
+	"math"
 	mathrand "math/rand"
 	"os"
 	"sort"
@@ -207,14 +208,10 @@ func (r *rateLimiter) UpdateRateLimitConditionStatus(upstream string, condition 
 			return nil, fmt.Errorf("upstream flow control item type %s not equal to instance item type %s", upstreamItemType, itemType)
 		}
 
-		if !onRecord {
-			// The instance is not on record (it was cleaned up while silent, or this server has just become leader),
-			// so the quota it still holds is not part of the allocated sum. Count it in, otherwise the
-			// instance would keep it on top of what has been handed out to the others in the meantime.
-			upstreamUsed = addLimitQuota(upstreamUsed, flowControlConfig.LimitItemDetail)
-		}
-
-		newConfig := calculateNextQuota(upstreamTotal, upstreamUsed, flowControlConfig, flowControlStatus, len(clients), condition)
+		// If the instance is not on record (it was cleaned up while silent, or this server has just become leader),
+		// the quota it still holds is not part of the allocated sum: it is counted in, otherwise the instance
+		// would keep it on top of what has been handed out to the others in the meantime.
+		newConfig := calculateNextQuotaOf(upstreamTotal, upstreamUsed, flowControlConfig, flowControlStatus, len(clients), condition, onRecord)
 		//klog.V(4).Infof("[condition] name=%q next quota of condition: %+v", condition.Name, newConfig)
 
 		var allocatedLimit int32
@@ -766,13 +763,13 @@ func (r *rateLimiter) calculateUpstreamCondition(limitStore _interface.LimitStor
 				if total.MaxRequestsInflight == nil {
 					total.MaxRequestsInflight = &proxyv1alpha1.MaxRequestsInflightFlowControlSchema{}
 				}
-				total.MaxRequestsInflight.Max += item.MaxRequestsInflight.Max
+				total.MaxRequestsInflight.Max = addQuota(total.MaxRequestsInflight.Max, item.MaxRequestsInflight.Max)
 			case item.TokenBucket != nil:
 				if total.TokenBucket == nil {
 					total.TokenBucket = &proxyv1alpha1.TokenBucketFlowControlSchema{}
 				}
-				total.TokenBucket.QPS += item.TokenBucket.QPS
-				total.TokenBucket.Burst += item.TokenBucket.Burst
+				total.TokenBucket.QPS = addQuota(total.TokenBucket.QPS, item.TokenBucket.QPS)
+				total.TokenBucket.Burst = addQuota(total.TokenBucket.Burst, item.TokenBucket.Burst)
 			}
 		}
 
@@ -803,23 +800,18 @@ func (r *rateLimiter) calculateUpstreamCondition(limitStore _interface.LimitStor
 	return upstreamCondition
 }
 
-// addLimitQuota returns a copy of status with the quota of limit added to it.
-func addLimitQuota(status proxyv1alpha1.RateLimitItemStatus, limit proxyv1alpha1.LimitItemDetail) proxyv1alpha1.RateLimitItemStatus {
-	status = *status.DeepCopy()
+// addQuota adds two quotas without wrapping around. The allocated sums are int32 like the limits; with limits in
+// the upper half of that range (and the minimum quota of 1 that every instance gets) a sum can pass it, and must
+// then read as "everything is allocated", never as a negative number.
+func addQuota(a, b int32) int32 {
+	sum := int64(a) + int64(b)
 	switch {
-	case limit.MaxRequestsInflight != nil:
-		if status.MaxRequestsInflight == nil {
-			status.MaxRequestsInflight = &proxyv1alpha1.MaxRequestsInflightFlowControlSchema{}
-		}
-		status.MaxRequestsInflight.Max += limit.MaxRequestsInflight.Max
-	case limit.TokenBucket != nil:
-		if status.TokenBucket == nil {
-			status.TokenBucket = &proxyv1alpha1.TokenBucketFlowControlSchema{}
-		}
-		status.TokenBucket.QPS += limit.TokenBucket.QPS
-		status.TokenBucket.Burst += limit.TokenBucket.Burst
+	case sum > math.MaxInt32:
+		return math.MaxInt32
+	case sum < math.MinInt32:
+		return math.MinInt32
 	}
-	return status
+	return int32(sum)
 }
 
 func updateUpstreamStateCondition(upstreamCondition *proxyv1alpha1.RateLimitCondition, cluster *proxyv1alpha1.UpstreamCluster) *proxyv1alpha1.RateLimitCondition {
